@@ -574,6 +574,13 @@ impl World {
     }
 
     /// Put raw bytes on the receive socket now (used by the C04 receive-path sweeps).
+    /// Drop whatever was injected and not read (sweeps inject one datagram per receive call).
+    pub fn clear_queue(&mut self) -> usize {
+        let n = self.queue.len();
+        self.queue.clear();
+        n
+    }
+
     pub fn inject(&mut self, bytes: Vec<u8>, from: IpAddr) {
         let now = self.now();
         self.enqueue(now, bytes, from, Origin::Noise("garbage"), false, "other", 0);
@@ -606,10 +613,28 @@ impl World {
                 self.enqueue(now + d, bytes, from, Origin::Noise("foreign"), false, "te", seq);
             }
         }
-        if n.never_pct > 0 && self.rng.random_range(0..100) < n.never_pct {
+        if n.foreign_pct > 0 && self.sc.proto != "icmp" && self.rng.random_range(0..100) < n.foreign_pct / 2 {
+            // unrelated ICMP traffic reaching a UDP / TCP tracer: an echo reply (somebody's ping) whose identifier is
+            // zero or this tracer's and whose sequence number is that of a probe in flight
+            let seq = self.sends[k].seq;
+            let id = if self.rng.random_bool(0.5) { 0 } else { self.sc.trace_id };
+            let (bytes, _) = self.echo_reply(id, seq, &[0u8; 16]);
+            if !bytes.is_empty() {
+                let tgt = self.target;
+                let d = self.rng.random_range(1..=self.sc.net.hop_delay_us.max(2) * 3);
+                self.enqueue(now + d, bytes, tgt, Origin::Noise("foreign"), false, "er", seq);
+            }
+        }
+        // the first round after a wrap-around re-uses the sequence numbers of round 0: the probe buffer may still hold
+        // unanswered probes of that (typically longer) round under exactly those numbers
+        let aligned = self.round > 0
+            && self.sends.iter().rev().take_while(|r| r.round == self.round).last().is_some_and(|r| r.seq == self.sc.init_seq);
+        if n.never_pct > 0 && (aligned || self.rng.random_range(0..100) < n.never_pct) {
             // a sequence number inside the window but not (yet) sent in this round
             let r = &self.sends[k];
-            let ahead = self.rng.random_range(1..400u16);
+            // often just beyond what this round has sent: those buffer slots may still hold probes of an earlier,
+            // longer round (after a wrap-around even under the same sequence numbers)
+            let ahead = if aligned || self.rng.random_bool(0.5) { self.rng.random_range(1..30u16) } else { self.rng.random_range(1..400u16) };
             let never = r.seq.wrapping_add(ahead);
             let mut q = tpl.clone();
             if self.set_sequence(&mut q, never) {
@@ -1126,6 +1151,11 @@ impl Socket for SimSocket {
                 return Ok(Some(SocketError::Other(io_err("other"))));
             };
             let target = code_of(w.target);
+            let now = w.now();
+            // a connect that has not completed has no pending error (SO_ERROR reads 0): nothing was handed over
+            if st.ready_at.as_ref().is_none_or(|(t, _)| *t > now) {
+                return Ok(None);
+            }
             match st.ready_at {
                 Some((_, TcpOutcome::Connected)) => {
                     w.log_delivery(&Origin::Resp(st.k), target, true, "syn", 0);
